@@ -113,6 +113,9 @@ class Evaluator:
         self.calls_folded = set()
         self.inline = lambda path: True     # which in-repo callees are folded (others stay terms)
         self.trace = []                     # residual calls in evaluation order (effects)
+        self.fork = False                   # path-forking mode (decision extraction)
+        self._oracle = []
+        self._taken = []
         for c in facts.crates.values():
             for p, a in c.adts.items():
                 if a["kind"] == "enum":
@@ -132,6 +135,55 @@ class Evaluator:
         self.steps = 0
         self.trace = []
         return self._call(fn, list(args))
+
+    def paths(self, fn, args, max_paths=512):
+        """decision extraction: fold `fn` along every combination of outcomes of its undecidable
+        branch conditions.  Yields (decisions, outcome, trace) where decisions is a list of
+        (condition-term, choice) and outcome is a value, or a Panic instance."""
+        from .terms import show
+        out = []
+        pending = [[]]
+        old = self.fork
+        self.fork = True
+        try:
+            while pending:
+                prefix = pending.pop()
+                self._oracle = list(prefix)
+                self._taken = []
+                self.steps = 0
+                self.trace = []
+                try:
+                    res = self._call(fn, list(args))
+                except Panic as pn:
+                    res = pn
+                taken = list(self._taken)
+                # schedule the untried alternatives of every choice made beyond the prefix
+                for i in range(len(prefix), len(taken)):
+                    cond, choice, alts = taken[i]
+                    for a in alts:
+                        if a != choice:
+                            pending.append([(c, ch) for c, ch, _ in taken[:i]] + [(cond, a)])
+                out.append(([(c, ch) for c, ch, _ in taken], res, list(self.trace)))
+                if len(out) > max_paths:
+                    raise Budget()
+        finally:
+            self.fork = old
+        return out
+
+    def _decide(self, condterm, alternatives):
+        from .terms import show
+        key = show(condterm)
+        i = len(self._taken)
+        # a condition decided earlier on this path keeps its outcome
+        for c, ch, _ in self._taken:
+            if c == key and ch in alternatives:
+                return ch
+        if i < len(self._oracle) and self._oracle[i][0] == key:
+            choice = self._oracle[i][1]
+        else:
+            choice = alternatives[0]
+        self._taken.append((key, choice, list(alternatives)))
+        return choice
 
     # ---- internals ----------------------------------------------------------
     def _tick(self):
@@ -326,6 +378,8 @@ class Evaluator:
                 cv = self.const_val(n)
                 if cv is not None:
                     return cv
+                if res["def"].startswith("core::num::nonzero::NonZero::<") and res["def"].endswith(">::MIN"):
+                    return 1
                 # fold the const's own initialiser
                 f = self.lookup_fn(res["def"])
                 if f is not None and f.hir is not None:
@@ -403,6 +457,13 @@ class Evaluator:
         if cv is True:
             return self._in_scope(n["then"], env, e2)
         if cv is False:
+            if n.get("else") is not None:
+                return self.ev(n["else"], env)
+            return T(())
+        if self.fork:
+            condterm = self._safe(c, dict(env))
+            if self._decide(condterm, [True, False]):
+                return self._in_scope(n["then"], env, e2)
             if n.get("else") is not None:
                 return self.ev(n["else"], env)
             return T(())
@@ -507,6 +568,26 @@ class Evaluator:
                 break
         if unknown_from is None:
             return Sym("match-noarm", (sv,))
+        if self.fork:
+            feasible = []
+            for arm in n["arms"][unknown_from:]:
+                e2 = dict(env)
+                r = self.bind(arm["pat"], sv, e2)
+                if r is False:
+                    continue
+                for name in pat_names(arm["pat"]):
+                    if name not in e2 or r is None:
+                        e2[name] = Sym("pat", (name, sv))
+                label = pat_show(arm["pat"]) + (" if …" if arm.get("guard") is not None else "")
+                feasible.append((label, arm, e2))
+            labels = []
+            for lab, _, _ in feasible:
+                while lab in labels:
+                    lab += "'"
+                labels.append(lab)
+            pick = self._decide(sv, labels)
+            _, arm, e2 = feasible[labels.index(pick)]
+            return self._in_scope(arm["body"], env, e2)
         outs = []
         envs = []
         for arm in n["arms"][unknown_from:]:
@@ -517,7 +598,7 @@ class Evaluator:
             for name in pat_names(arm["pat"]):
                 if name not in e2 or r is None:
                     e2[name] = Sym("pat", (name, sv))
-            outs.append(self._safe(arm["body"], e2))
+            outs.append(Sym("arm", (pat_show(arm["pat"]), self._safe(arm["body"], e2))))
             envs.append(e2)
         for name in list(env.keys()):
             vals = [e.get(name, _MISSING) for e in envs]
@@ -847,6 +928,37 @@ class Evaluator:
         return r
 
 
+def pat_show(p):
+    k = p["k"]
+    if k == "wild":
+        return "_"
+    if k == "bind":
+        return p["name"]
+    if k in ("ref", "deref"):
+        return pat_show(p["pat"])
+    if k == "or":
+        return "|".join(pat_show(x) for x in p["pats"])
+    if k == "lit":
+        for kk in ("int", "str", "bool", "float", "char"):
+            if kk in p["v"]:
+                return repr(p["v"][kk])
+        return "lit"
+    if k == "path":
+        r = p["path"]
+        return (r.get("def") or r.get("selfctor") or "?").rsplit("::", 1)[-1]
+    if k == "tstruct":
+        r = p["path"]
+        return "%s(%s)" % ((r.get("def") or r.get("selfctor") or "?").rsplit("::", 1)[-1],
+                           ",".join(pat_show(x) for x in p["pats"]))
+    if k == "tuple":
+        return "(%s)" % ",".join(pat_show(x) for x in p["pats"])
+    if k == "struct":
+        return "{%s}" % ",".join("%s:%s" % (n, pat_show(x)) for n, x in p["fields"])
+    if k == "range":
+        return "range"
+    return k
+
+
 def pat_names(p):
     k = p["k"]
     if k == "bind":
@@ -976,8 +1088,16 @@ def _b_identity(ev, n, a):
     return a[0]
 
 
+def _b_nz_new(ev, n, a):
+    if isinstance(a[0], int):
+        return some(a[0]) if a[0] != 0 else NONE_V
+    return Sym("nonzero_new", (a[0],))
+
+
 def _b_into(ev, n, a):
     v = a[0]
+    if isinstance(v, bool) and n.get("ty") in INT_BITS:
+        return int(v)
     if isinstance(v, (int, float)) and not isinstance(v, bool):
         ty = n.get("ty")
         if ty in INT_BITS:
@@ -1053,6 +1173,7 @@ def _b_written(ev, n, a):
     # <str as Display>::fmt(s, f) / Formatter::write_str(f, s) / pad
     for x in a:
         if isinstance(x, str):
+            ev.trace.append(Sym("call", ("core::fmt::Write::write_str", tuple(a))))
             return V("fmt::Written", (x,))
     return NotImplemented
 
@@ -1178,3 +1299,24 @@ for _t in INT_BITS:
     BUILTINS["core::num::<impl %s>::div_euclid" % _t] = _b_div_euclid
     BUILTINS["core::num::<impl %s>::unsigned_abs" % _t] = _b_abs
 BUILTINS["core::cmp::Ord::clamp"] = _b_clamp
+
+
+def _f64(fn):
+    def f(ev, n, a):
+        if isinstance(a[0], (int, float)) and not isinstance(a[0], bool):
+            return fn(float(a[0]))
+        return Sym("f64op", tuple(a))
+    return f
+
+
+import math as _math
+for _pre in ("core::f64::<impl f64>::", "std::f64::<impl f64>::"):
+    BUILTINS[_pre + "is_finite"] = _f64(_math.isfinite)
+    BUILTINS[_pre + "is_nan"] = _f64(_math.isnan)
+    BUILTINS[_pre + "trunc"] = _f64(lambda x: float(_math.trunc(x)))
+    BUILTINS[_pre + "floor"] = _f64(lambda x: float(_math.floor(x)))
+    BUILTINS[_pre + "ceil"] = _f64(lambda x: float(_math.ceil(x)))
+    BUILTINS[_pre + "abs"] = _f64(abs)
+BUILTINS["core::num::nonzero::NonZero::<T>::get"] = _b_identity
+BUILTINS["core::num::nonzero::NonZero::<T>::new_unchecked"] = _b_identity
+BUILTINS["core::num::nonzero::NonZero::<T>::new"] = _b_nz_new
